@@ -34,6 +34,7 @@ import (
 	mcodecs "github.com/bluenviron/mediacommon/v2/pkg/formats/mp4/codecs"
 	"github.com/gin-gonic/gin"
 	"github.com/google/uuid"
+	"github.com/matthewhartstonge/argon2"
 
 	"github.com/bluenviron/mediamtx/internal/auth"
 	"github.com/bluenviron/mediamtx/internal/conf"
@@ -251,6 +252,7 @@ type verifC04Server struct {
 type verifC04World struct {
 	dir     string
 	mgr     *auth.Manager
+	am      *verifC04Auth     // what the servers hold; `reset` puts a fresh Manager behind it, `reload` reloads in place
 	ref     []verifC04RefUser // the harness' own reading of the permission table in force
 	servers map[string]*verifC04Server
 	// kept alive
@@ -354,6 +356,7 @@ func verifC04NewWorld() *verifC04World {
 
 	w.mgr = &auth.Manager{Method: conf.AuthMethodInternal, ReadTimeout: time.Second}
 	am := &verifC04Auth{m: w.mgr}
+	w.am = am
 	to := conf.Duration(10 * time.Second)
 	sock := func(n string) string { return "unix://" + filepath.Join(dir, n+".sock") }
 
@@ -482,6 +485,7 @@ func (q *verifC04Req) queryPath() string {
 
 type verifC04RefUser struct {
 	user, pass string
+	clear      string // argon2 entries: the password the hash was made from (5th field of the U token)
 	nets       []*net.IPNet
 	perms      [][2]string // action, path
 }
@@ -491,6 +495,9 @@ func verifC04RefParse(fs []string) []verifC04RefUser {
 	for _, f := range fs {
 		p := strings.Split(f[1:], ",")
 		u := verifC04RefUser{user: verifutil.UnHexS(p[0]), pass: verifutil.UnHexS(p[1])}
+		if len(p) > 4 {
+			u.clear = verifutil.UnHexS(p[4])
+		}
 		if p[2] != "-" {
 			for _, c := range strings.Split(p[2], "+") {
 				if !strings.Contains(c, "/") {
@@ -517,7 +524,10 @@ func verifC04RefParse(fs []string) []verifC04RefUser {
 	return out
 }
 
-func verifC04RefCred(stored, guess string) bool {
+func verifC04RefCred(stored, clear, guess string) bool {
+	if strings.HasPrefix(stored, "argon2:") {
+		return guess == clear
+	}
 	if strings.HasPrefix(stored, "sha256:") {
 		return stored[len("sha256:"):] == verifC04Sha(guess)
 	}
@@ -555,7 +565,7 @@ func verifC04RefAdmit(users []verifC04RefUser, action, path, user, pass string, 
 		if !perm {
 			continue
 		}
-		if u.user == "any" || (verifC04RefCred(u.user, user) && verifC04RefCred(u.pass, pass)) {
+		if u.user == "any" || (verifC04RefCred(u.user, "", user) && verifC04RefCred(u.pass, u.clear, pass)) {
 			return true
 		}
 	}
@@ -688,7 +698,12 @@ func verifC04Exec(op string) string {
 	f := strings.Fields(op)
 	w := verifC04W
 	switch f[0] {
-	case "reset":
+	case "reset": // a freshly started authentication manager
+		w.mgr = &auth.Manager{Method: conf.AuthMethodInternal, InternalUsers: verifC04ParseUsers(f[1:]), ReadTimeout: time.Second}
+		w.am.m = w.mgr
+		w.ref = verifC04RefParse(f[1:])
+		return "ok"
+	case "reload": // configuration hot reload: same manager, new user table
 		w.mgr.ReloadInternalUsers(verifC04ParseUsers(f[1:]))
 		w.ref = verifC04RefParse(f[1:])
 		return "ok"
@@ -854,6 +869,74 @@ func verifC04Query(r *verifutil.Rand, rt verifC04RouteT, p string) string {
 	return ""
 }
 
+// verifC04Argon2 makes an argon2id hash with tiny cost parameters (they are part of the encoded string, so the
+// real verifier accepts it; the default 64 MiB would make every request of the run cost ~50 ms).
+func verifC04Argon2(pw string) string {
+	cfg := argon2.Config{HashLength: 32, SaltLength: 16, TimeCost: 1, MemoryCost: 8, Parallelism: 1,
+		Mode: argon2.ModeArgon2id, Version: argon2.Version13}
+	enc, err := cfg.HashEncoded([]byte(pw))
+	if err != nil {
+		panic(err)
+	}
+	return "argon2:" + string(enc)
+}
+
+// verifC04GenRotation: histories in which ONE manager sees the same user with different passwords: right then
+// wrong password, then a hot reload that changes / revokes the password, then the old and the new password
+// again.  One request per server and step.
+func verifC04GenRotation(r *verifutil.Rand, kind string) []string {
+	w := verifC04W
+	stored := func(pw string) string {
+		switch kind {
+		case "argon2":
+			return verifC04Argon2(pw)
+		case "sha256":
+			return "sha256:" + verifC04Sha(pw)
+		}
+		return pw
+	}
+	table := func(op, pw, perms string) string {
+		t := fmt.Sprintf("%s U%s,%s,-,%s,%s", op, verifutil.HexS("rot"), verifutil.HexS(stored(pw)), perms, verifutil.HexS(pw))
+		t += fmt.Sprintf(" U%s,%s,-,%s", verifutil.HexS("other"), verifutil.HexS("op"), "api")
+		w.ref = verifC04RefParse(strings.Fields(t)[1:])
+		return t
+	}
+	targets := []verifC04Req{
+		{srv: "api", method: "GET", tmpl: "/v3/paths/list", path: "/v3/paths/list"},
+		{srv: "metrics", method: "GET", tmpl: "/metrics", path: "/metrics"},
+		{srv: "pprof", method: "GET", tmpl: "/debug/pprof/cmdline", path: "/debug/pprof/cmdline"},
+		{srv: "playback", method: "GET", tmpl: "/list", path: "/list", query: "path=" + verifC04Rec},
+	}
+	var ops []string
+	try := func(pw string) {
+		for _, t := range targets {
+			if r.Chance(1, 3) {
+				continue
+			}
+			q := t
+			q.place, q.user, q.pass, q.remote = r.Pick("basic", "bearerup"), "rot", pw, "10.1.2.3:5555"
+			valid, res := w.oracle(&q)
+			ops = append(ops, q.line(valid, res))
+		}
+	}
+	all := "api;metrics;pprof;playback"
+	ops = append(ops, table("reset", "pw1", all))
+	try("pw1")
+	try("pw2")
+	try("pw1")
+	ops = append(ops, table("reload", "pw2", all)) // password changed at runtime
+	try("pw1")
+	try("pw2")
+	if r.Bool() {
+		ops = append(ops, table("reload", "pw2", "read")) // administrative permissions revoked
+		try("pw2")
+	}
+	ops = append(ops, table("reload", "pw1", all))
+	try("pw2")
+	try("pw1")
+	return ops
+}
+
 func verifC04Gen(r *verifutil.Rand, i int, thorough bool) []string {
 	w := verifC04W
 	users := verifC04PermSet(r, i)
@@ -869,8 +952,12 @@ func verifC04Gen(r *verifutil.Rand, i int, thorough bool) []string {
 		}
 		reset += fmt.Sprintf(" U%s,%s,%s,%s", verifutil.HexS(u.user), verifutil.HexS(st), ips, u.perms)
 	}
-	ops := []string{reset}
-	w.mgr.ReloadInternalUsers(verifC04ParseUsers(strings.Fields(reset)[1:]))
+	// first: password rotation histories (one manager, same user, changing passwords, across hot reloads)
+	var ops []string
+	for _, kind := range []string{"argon2", "sha256", "plain"} {
+		ops = append(ops, verifC04GenRotation(r, kind)...)
+	}
+	ops = append(ops, reset)
 	w.ref = verifC04RefParse(strings.Fields(reset)[1:])
 	for _, sn := range []string{"api", "metrics", "pprof", "playback"} {
 		ops = append(ops, "routes "+sn)
